@@ -97,42 +97,46 @@ func checkAPIsReadOnly(t *testing.T, col *evid.Collector) {
 	if tag != nil {
 		tagS = tag.String()
 	}
-	args := []string{`""`, `"x"`, `"refs/heads/main"`, `"main"`, `"HEAD"`, `"origin"`, fmt.Sprintf("%q", blob.String()), fmt.Sprintf("%q", c1.String()),
-		fmt.Sprintf("%q", tagS), `"../../etc/passwd"`, `"--upload-pack=touch /tmp/c20pwn"`, `"-c"`, "0", "nil", "{}", "true"}
+	args := []string{`"x"`, `"refs/heads/main"`, `"HEAD"`, `"origin"`, fmt.Sprintf("%q", blob.String()), fmt.Sprintf("%q", c1.String()),
+		fmt.Sprintf("%q", tagS), `"--upload-pack=touch /tmp/c20pwn"`, "0", "nil", "{}"}
 	apis := env.GetAPIs()
 	sort.Slice(apis, func(i, j int) bool { return apis[i].GetName() < apis[j].GetName() })
 	col.Bound("registered_apis", len(apis))
+	before, err := repoFingerprint(r)
+	if err != nil {
+		col.Fail("api: " + err.Error())
+		return
+	}
 	for _, a := range apis {
 		kind := "go"
 		if _, ok := a.(*luasandbox.LuaAPI); ok {
 			kind = "lua"
 		}
+		var b strings.Builder
+		b.WriteString("__c20api = {}\n")
 		for _, arg := range args {
-			before, err := repoFingerprint(r)
-			if err != nil {
-				col.Fail("api: " + err.Error())
-				return
-			}
-			script := fmt.Sprintf("__c20api = {pcall(%s, %s, %s)} return 0", a.GetName(), arg, arg)
-			_, rerr := env.RunScript(script, lua.LTable{})
-			after, err := repoFingerprint(r)
-			if err != nil {
-				col.Fail("api: " + err.Error())
-				return
-			}
-			col.Inc("evaluations")
-			col.Inc("traces_validated_against_impl")
-			col.Inc("api_calls")
-			out := "unchanged"
-			if before != after {
-				out = "REPOSITORY-CHANGED"
-				col.Violation("C20:registered-api-not-read-only:"+a.GetName(), fmt.Sprintf("%s(%s) changed the repository: %s", a.GetName(), arg, firstDiff(before, after)), replayCase{Kind: "script", Script: script})
-			}
-			if rerr != nil {
-				out += "+script-error"
-			}
-			col.Class("api/%s/%s/%s", kind, a.GetName(), out)
+			fmt.Fprintf(&b, "__c20api[#__c20api + 1] = {pcall(%s, %s, %s)}\n", a.GetName(), arg, arg)
 		}
+		b.WriteString("return 0\n")
+		_, rerr := env.RunScript(b.String(), lua.LTable{})
+		after, err := repoFingerprint(r)
+		if err != nil {
+			col.Fail("api: " + err.Error())
+			return
+		}
+		col.Inc("evaluations")
+		col.Inc("traces_validated_against_impl")
+		col.Add("api_calls", int64(len(args)))
+		out := "unchanged"
+		if before != after {
+			out = "REPOSITORY-CHANGED"
+			col.Violation("C20:registered-api-not-read-only:"+a.GetName(), fmt.Sprintf("calling %s changed the repository: %s", a.GetName(), firstDiff(before, after)), replayCase{Kind: "script", Script: b.String()})
+			before = after
+		}
+		if rerr != nil {
+			out += "+script-error"
+		}
+		col.Class("api/%s/%s/%s", kind, a.GetName(), out)
 	}
 }
 
